@@ -266,7 +266,13 @@ def main():
              ("SELECT id FROM (SELECT * FROM t JOIN u ON t.id = u.id JOIN w ON u.id = w.id) AS j", "ambiguous"),
              ("WITH j AS (SELECT * FROM t JOIN u ON t.id = u.id JOIN w ON u.id = w.id JOIN v ON w.id = v.id) SELECT id FROM j", "ambiguous"),
              ("WITH j AS (SELECT * FROM t JOIN u ON t.id = u.id JOIN w ON u.id = w.id) SELECT x, y, z FROM j", "resolved"),
-             ("SELECT w.id FROM t JOIN u ON t.id = u.id JOIN w ON u.id = w.id", "resolved")]
+             ("SELECT w.id FROM t JOIN u ON t.id = u.id JOIN w ON u.id = w.id", "resolved"),
+             # a USING / NATURAL merge followed by a plain join that brings the name in again
+             ("SELECT id FROM t JOIN u USING (id) JOIN w ON t.id = w.id", "ambiguous"),
+             ("SELECT id FROM t NATURAL JOIN u JOIN w ON u.y = w.z", "ambiguous"),
+             ("SELECT id FROM t JOIN u USING (id) CROSS JOIN w", "ambiguous"),
+             ("SELECT id FROM t JOIN u USING (id) JOIN w USING (id)", "resolved"),
+             ("SELECT x, z FROM t JOIN u USING (id) JOIN w ON t.id = w.id", "resolved")]
     neg = []
     for sql, expect in progs:
         ans = d.call(dict(op="relation", tables=tables, sql=sql))
